@@ -6,257 +6,31 @@
   zero, `.blkw n` exactly `n` uninitialised words; every statement contributes exactly `word_len` words, so throughout
   pass 2 the location counter equals block start + words emitted (statements are placed at the address implied by the
   `.orig` and the sizes before them); pass 1 binds a label to the location counter of its statement.
-  Not proved: the agreement of the two passes' location counters as one theorem over whole programs and the
-  "no other address is defined" clause; both are checked by the reference encoder of the correspondence check.
+  Proved across the two passes (Lemmas/TwoPass.lean): both passes keep the same location counter over any prefix of the
+  program, bindings made by pass 1 are never changed afterwards, hence `label_address`: every label of a statement maps,
+  in the final symbol table, to the location counter pass 2 has when it reaches that statement = block start + words
+  emitted so far.
+  Not proved: the "no other address is defined" clause (the block map holds exactly the closed non-empty blocks) as a
+  single statement; it is checked by the reference encoder of the correspondence check.
 -/
-import Lc3V.Model.Asm
-import Lc3V.Props.C35
-import Lc3V.Lemmas.Offset
-set_option linter.unusedSimpArgs false
+import Lc3V.Lemmas.C01Core
+import Lc3V.Lemmas.TwoPass
 namespace Lc3V.C01
 open Lc3V
 
-/-- aliases expand to the instruction the ISA table gives -/
-theorem alias_expansion (pc : W) (t : SymTab) :
-    intoSimInstr .ret pc t = .ok (.jmp 7) ∧ intoSimInstr .getc pc t = .ok (.trap 0x20) ∧
-    intoSimInstr .out pc t = .ok (.trap 0x21) ∧ intoSimInstr .putc pc t = .ok (.trap 0x21) ∧
-    intoSimInstr .puts pc t = .ok (.trap 0x22) ∧ intoSimInstr .in_ pc t = .ok (.trap 0x23) ∧
-    intoSimInstr .putsp pc t = .ok (.trap 0x24) ∧ intoSimInstr .halt pc t = .ok (.trap 0x25) ∧
-    (∀ b, intoSimInstr (.jsrr b) pc t = .ok (.jsr (.reg b))) ∧
-    (∀ v : BitVec 9, intoSimInstr (.nop (.off v)) pc t = .ok (.br 0 v)) :=
-  ⟨rfl, rfl, rfl, rfl, rfl, rfl, rfl, rfl, fun _ => rfl, fun _ => rfl⟩
-
-theorem signExtend_setWidth_of_fits (n : Nat) (h1 : 1 ≤ n) (h2 : n ≤ 16) (x : W) (o : Offset n) (h : newS n x = .ok o) :
-    IOff.get (x.setWidth n) = x := by
-  have hx : x = truncS n x := by
-    unfold newS at h
-    rw [if_neg (by omega), if_neg (by omega)] at h
-    split at h
-    · assumption
-    · cases h
-  unfold IOff.get
-  have : (x.setWidth n).signExtend 16 = truncS n x := by
-    apply BitVec.eq_of_toInt_eq
-    rw [BitVec.toInt_signExtend_of_le h2, BitVec.toInt_setWidth, truncS_toInt n h1 h2]
-  rw [this, ← hx]
-
-/-- a label operand becomes `label address − pc` (pc = address of the following word): the field, sign-extended, is that
-    difference; the operand is rejected when the label is undefined, external, or the difference does not fit -/
-theorem label_operand (n : Nat) (h1 : 1 ≤ n) (h2 : n ≤ 16) (l : Label) (pc : W) (t : SymTab) :
-    (∀ v, replacePcOffset n (.label l) pc t = .ok v →
-      ∃ d, lookupKey t.labels (upperS l.name) = some d ∧ d.ext = false ∧ IOff.get v = d.addr - pc) ∧
-    (∀ d, lookupKey t.labels (upperS l.name) = some d → d.ext = false →
-      (-(2 ^ (n - 1) : Int) ≤ (d.addr - pc).toInt ∧ (d.addr - pc).toInt < 2 ^ (n - 1)) →
-      ∃ v, replacePcOffset n (.label l) pc t = .ok v) := by
-  constructor
-  · intro v h
-    unfold replacePcOffset at h
-    dsimp only at h
-    cases hl : lookupKey t.labels (upperS l.name) with
-    | none => rw [hl] at h; cases h
-    | some d =>
-      rw [hl] at h
-      dsimp only at h
-      by_cases he : d.ext = true
-      · rw [if_pos he] at h; cases h
-      · rw [if_neg he] at h
-        refine ⟨d, rfl, by simpa using he, ?_⟩
-        cases hn : newS n (d.addr - pc) with
-        | ok o => rw [hn] at h; cases h; exact signExtend_setWidth_of_fits n h1 h2 _ o hn
-        | err e => rw [hn] at h; cases h
-        | panic m => rw [hn] at h; cases h
-  · intro d hl he hfit
-    have hok := (C35.new_signed_iff n h1 h2 (d.addr - pc)).mpr hfit
-    unfold replacePcOffset
-    dsimp only
-    rw [hl]
-    dsimp only
-    rw [if_neg (by simp [he])]
-    cases hn : newS n (d.addr - pc) with
-    | ok o => exact ⟨_, rfl⟩
-    | err e => rw [hn] at hok; cases hok
-    | panic m => rw [hn] at hok; cases hok
-
-/-- the words of the data directives -/
-theorem directive_words (t : SymTab) :
-    (∀ v : W, directiveWords (.fill (.off v)) t = .ok [some v]) ∧
-    (∀ l a, t.lookupLabel l.name = some a → directiveWords (.fill (.label l)) t = .ok [some a]) ∧
-    (∀ n : W, directiveWords (.blkw n) t = .ok (List.replicate n.toNat none)) ∧
-    (∀ s, directiveWords (.stringz s) t = .ok ((utf8Words s).map some ++ [some 0])) ∧
-    directiveWords .end_ t = .ok [] ∧ (∀ a, directiveWords (.orig a) t = .ok []) ∧ (∀ l, directiveWords (.external l) t = .ok []) := by
-  refine ⟨fun _ => rfl, ?_, fun _ => rfl, fun _ => rfl, rfl, fun _ => rfl, fun _ => rfl⟩
-  intro l a h
-  simp [directiveWords, h]
-
-theorem utf8Words_length (s : List Char) : (utf8Words s).length = blen s := by
-  induction s with
-  | nil => rfl
-  | cons c cs ih =>
-    simp only [utf8Words, List.flatMap_cons, List.length_append, List.length_map, String.length_utf8EncodeChar, blen] at ih ⊢
-    rw [ih]
-
-/-- every directive contributes exactly `word_len` words (string literals are below 65535 bytes, as the lexer guarantees) -/
-theorem directive_words_length (d : Directive) (t : SymTab) (ws : List (Option W)) (h : directiveWords d t = .ok ws)
-    (hs : ∀ s, d = .stringz s → blen s + 1 < 65536) : ws.length = d.wordLen.toNat := by
-  cases d with
-  | orig a => cases h; rfl
-  | fill v =>
-    cases v with
-    | off v => cases h; rfl
-    | label l =>
-      simp only [directiveWords] at h
-      split at h <;> cases h
-      rfl
-  | blkw n => cases h; simp [Directive.wordLen]
-  | stringz s =>
-    cases h
-    have := hs s rfl
-    simp only [List.length_append, List.length_map, utf8Words_length, List.length_cons, List.length_nil, Directive.wordLen,
-      BitVec.toNat_ofNat]
-    omega
-  | end_ => cases h; rfl
-  | external l => cases h; rfl
-
-/-- invariant of the second pass: inside a block the location counter is block start + number of words emitted -/
-def LcInv (st : P2) : Prop := ∀ lc b, st.current = some (lc, b) → lc = b.start + BitVec.ofNat 16 b.words.length
-
-theorem dir_generic (t : SymTab) (st st' : P2) (d : Directive) (sp : Span) (h : LcInv st)
-    (hlen : ∀ ws, directiveWords d t = .ok ws → ws.length = d.wordLen.toNat)
-    (hs : (match st.current with
-      | none => (.error ⟨.undetAddrStmt, [sp]⟩ : ARes P2)
-      | some (lc, block) =>
-        match directiveWords d t with
-        | .error e => .error e
-        | .ok ws => .ok { st with current := some (lc + d.wordLen, { block with words := block.words ++ ws }) }) = .ok st') :
-    LcInv st' := by
-  intro lc' b' hc'
-  cases hcur : st.current with
-  | none => rw [hcur] at hs; cases hs
-  | some p =>
-    obtain ⟨lc, b⟩ := p
-    rw [hcur] at hs
-    dsimp only at hs
-    cases hw : directiveWords d t with
-    | error e => rw [hw] at hs; cases hs
-    | ok ws =>
-      rw [hw] at hs
-      cases hs
-      cases hc'
-      have e1 := h lc b hcur
-      have e2 := hlen ws hw
-      simp only [List.length_append]
-      rw [e1]
-      have : d.wordLen = BitVec.ofNat 16 ws.length := by
-        apply BitVec.eq_of_toNat_eq; rw [BitVec.toNat_ofNat, e2]; exact (Nat.mod_eq_of_lt d.wordLen.isLt).symm
-      rw [this]; bv_omega
-
-theorem lcInv_step (t : SymTab) (st st' : P2) (stmt : Stmt) (h : LcInv st) (hs : pass2Step t st stmt = .ok st')
-    (hstr : ∀ s, stmt.nucleus = .directive (.stringz s) → blen s + 1 < 65536) : LcInv st' := by
-  unfold pass2Step at hs
-  intro lc' b' hc'
-  cases hn : stmt.nucleus with
-  | instr i =>
-    rw [hn] at hs
-    dsimp only at hs
-    cases hcur : st.current with
-    | none => rw [hcur] at hs; cases hs
-    | some p =>
-      obtain ⟨lc, b⟩ := p
-      rw [hcur] at hs
-      dsimp only at hs
-      cases hi : intoSimInstr i (lc + 1) t with
-      | error e => rw [hi] at hs; cases hs
-      | ok si =>
-        rw [hi] at hs
-        cases hs
-        cases hc'
-        have := h lc b hcur
-        simp only [List.length_append, List.length_cons, List.length_nil]
-        rw [this]; bv_omega
-  | directive d =>
-    rw [hn] at hs
-    cases d with
-    | orig a => cases hs; cases hc'; simp
-    | end_ =>
-      dsimp only at hs
-      cases hcur : st.current with
-      | none => rw [hcur] at hs; cases hs
-      | some p =>
-        rw [hcur] at hs
-        dsimp only at hs
-        split at hs
-        · cases hs; cases hc'
-        · split at hs
-          · cases hs
-          · cases hs; cases hc'
-    | external l => cases hs; exact h lc' b' hc'
-    | fill v => exact dir_generic t st st' (.fill v) stmt.span h (fun ws hw => directive_words_length _ t ws hw (by intro s hx; cases hx)) hs lc' b' hc'
-    | blkw n => exact dir_generic t st st' (.blkw n) stmt.span h (fun ws hw => directive_words_length _ t ws hw (by intro s hx; cases hx)) hs lc' b' hc'
-    | stringz s => exact dir_generic t st st' (.stringz s) stmt.span h (fun ws hw => directive_words_length _ t ws hw (by intro s' hx; cases hx; exact hstr s hn)) hs lc' b' hc'
-
-/-- the invariant holds after any prefix of the second pass -/
-theorem lcInv_fold (t : SymTab) : ∀ (stmts : List Stmt) (st st' : P2), LcInv st → stmts.foldlM (pass2Step t) st = .ok st' →
-    (∀ stmt ∈ stmts, ∀ s, stmt.nucleus = .directive (.stringz s) → blen s + 1 < 65536) → LcInv st' := by
-  intro stmts
-  induction stmts with
-  | nil => intro st st' h hs _; simp only [List.foldlM_nil] at hs; cases hs; exact h
-  | cons x xs ih =>
-    intro st st' h hs hstr
-    rw [List.foldlM_cons] at hs
-    cases hx : pass2Step t st x with
-    | error e => rw [hx] at hs; cases hs
-    | ok st1 =>
-      rw [hx] at hs
-      exact ih st1 st' (lcInv_step t st st1 x h hx (hstr x (by simp))) hs (fun y hy => hstr y (by simp [hy]))
-
-theorem lcInv_init : LcInv ⟨[], none⟩ := by intro lc b h; cases h
-
-theorem lookupKey_append_new (m : List (Key × SymData)) (k : Key) (d : SymData) (h : lookupKey m k = none) :
-    lookupKey (m ++ [(k, d)]) k = some d := by
-  unfold lookupKey at *
-  rw [List.find?_append]
-  cases hf : List.find? (fun e => e.1 == k) m with
-  | some x => rw [hf] at h; simp at h
-  | none => simp
-
-theorem lookupKey_append_old (m : List (Key × SymData)) (k k' : Key) (d d' : SymData) (h : lookupKey m k' = some d') :
-    lookupKey (m ++ [(k, d)]) k' = some d' := by
-  unfold lookupKey at *
-  rw [List.find?_append]
-  cases hf : List.find? (fun e => e.1 == k') m with
-  | some x => rw [hf] at h; simpa using h
-  | none => rw [hf] at h; simp at h
-
-/-- pass 1 binds a label to the address it is given (the location counter of its statement), and never rebinds an
-    existing label: a later definition either agrees or is an `OverlappingLabels` error -/
-theorem addLabel_spec (labels labels' : List (Key × SymData)) (l : Label) (addr : W) (ext : Bool)
-    (h : addLabel labels l addr ext = .ok labels') :
-    (∃ d, lookupKey labels' (upperS l.name) = some d ∧ d.addr = addr) ∧
-    (∀ k d, lookupKey labels k = some d → lookupKey labels' k = some d) := by
-  unfold addLabel at h
-  dsimp only at h
-  cases hl : lookupKey labels (upperS l.name) with
-  | some d =>
-    rw [hl] at h
-    dsimp only at h
-    by_cases hne : d.addr ≠ addr
-    · rw [if_pos hne] at h; cases h
-    · rw [if_neg hne] at h; cases h
-      exact ⟨⟨d, hl, by simpa using hne⟩, fun _ _ hk => hk⟩
-  | none =>
-    rw [hl] at h
-    cases h
-    exact ⟨⟨_, lookupKey_append_new _ _ _ hl, rfl⟩, fun k d hk => lookupKey_append_old _ _ _ _ _ hk⟩
-
-/-- a conflicting redefinition is rejected with both spellings' positions -/
-theorem addLabel_conflict (labels : List (Key × SymData)) (l : Label) (addr : W) (ext : Bool) (d : SymData)
-    (hl : lookupKey labels (upperS l.name) = some d) (hne : d.addr ≠ addr) :
-    addLabel labels l addr ext = .error ⟨.overlappingLabels, [d.span (upperS l.name), l.span]⟩ := by
-  unfold addLabel
-  simp [hl, hne]
+/-- every label maps to the address of the statement it precedes (restated from Lemmas/TwoPass.lean) -/
+theorem label_maps_to_statement_address (pre post : List Stmt) (s : Stmt) (src : Option (List Char)) (t : SymTab) (l : Label)
+    (p2 : P2) (hl : l ∈ s.labels) (h1 : pass1 (pre ++ s :: post) src = .ok t)
+    (h2 : pre.foldlM (pass2Step t) ⟨[], none⟩ = .ok p2)
+    (hstr : ∀ stmt ∈ pre, ∀ x, stmt.nucleus = .directive (.stringz x) → blen x + 1 < 65536) :
+    ∃ lc b, p2.current = some (lc, b) ∧ t.lookupLabel l.name = some lc ∧ lc = b.start + BitVec.ofNat 16 b.words.length :=
+  label_address pre post s src t l p2 hl h1 h2 hstr
 
 def obligations : List Lean.Name :=
   [``alias_expansion, ``signExtend_setWidth_of_fits, ``label_operand, ``directive_words, ``utf8Words_length,
-   ``directive_words_length, ``lcInv_step, ``lcInv_fold, ``lcInv_init, ``addLabel_spec, ``addLabel_conflict]
+   ``directive_words_length, ``lcInv_step, ``lcInv_fold, ``lcInv_init, ``addLabel_spec, ``addLabel_conflict,
+   ``label_maps_to_statement_address, ``Lc3V.inStep_fold, ``Lc3V.pass1Step_lc, ``Lc3V.pass2Step_lc, ``Lc3V.pass1Step_labels,
+   ``Lc3V.pass1_fold_keeps]
+
 
 end Lc3V.C01
